@@ -137,6 +137,10 @@ func f47Inputs(g string, p []int, f func(in []string)) {
 				f(strs(a, b))
 			}
 		}
+	case "cmp.IsLess.const", "cmp.IsLessOrEqual.const", "cmp.IsEqual.const":
+		for a := 0; a < q47; a++ {
+			f(strs(a))
+		}
 	case "cmp.IsLessBinary", "cmp.IsLessOrEqualBinary":
 		n := p[0]
 		for x := 0; x < 1<<(2*n); x++ {
@@ -213,6 +217,13 @@ func f47Configs(adversary bool) []f47cfg {
 	var r []f47cfg
 	for _, g := range []string{"cmp.IsLess", "cmp.IsLessOrEqual", "cmp.IsEqual"} {
 		r = append(r, f47cfg{g: g})
+	}
+	for _, g := range []string{"cmp.IsLess.const", "cmp.IsLessOrEqual.const", "cmp.IsEqual.const"} {
+		for b := 0; b < q47; b++ {
+			for side := 0; side < 2; side++ {
+				r = append(r, f47cfg{g: g, p: []int{side}, bound: strconv.Itoa(b)})
+			}
+		}
 	}
 	maxBits := 7
 	if adversary {
